@@ -719,6 +719,17 @@ impl SvgElement {
         Ok(href)
     }
 
+    /// The element a `use` / `reuse` refers to directly (which may itself be a `use`).
+    pub fn direct_use_target<'a>(&self, ctx: &'a impl ElementMap) -> Result<Option<&'a SvgElement>> {
+        if self.name != "use" && self.name != "reuse" {
+            return Ok(None);
+        }
+        Ok(self
+            .local_href()?
+            .and_then(|href| href.parse::<crate::types::ElRef>().ok())
+            .and_then(|elref| ctx.get_element(&elref)))
+    }
+
     pub fn get_target_element(&self, ctx: &impl ElementMap) -> Result<SvgElement> {
         // TODO: this uses OrderIndex to uniquely identify elements, but that's a bit
         // of a hack. In particular using `id` or `href` is insufficient, as doesn't
